@@ -44,11 +44,16 @@ func VerifHarness_C18_Updates() {
 	tree := NewTree(depth)
 	leaves := make([]big.Int, n)
 	verifAssert(verifBigEq(tree.Root(), verifDense(leaves)), "the empty tree has the root of the all-zero dense tree")
+	var prev big.Int
 	for u := 0; u < updates; u++ {
 		idx := verifNondetInt(verifName("idx", u))
 		verifAssume(idx >= 0 && idx < n)
 		val := verifNondetBig(verifName("val", u))
 		verifAssume(verifBigLt(val, verifFieldOrder()))
+		if u > 0 && verifParam("alias", 0) == 1 && verifNondetBool(verifName("same", u)) {
+			val = prev // the caller writes the very same big.Int (shared backing array) to another leaf
+		}
+		prev = val
 		for i := 0; i < n; i++ {
 			if i != idx {
 				continue
